@@ -162,6 +162,43 @@ func load(repo string, pkgPaths []string) *Verifier {
 	}
 	ta := time.Now()
 	v.allFuncs = ssautil.AllFunctions(prog)
+	// AllFunctions only reaches methods that are called or exported through interfaces: add every
+	// declared function and method (and their closures) of the murex packages explicitly
+	var addFn func(f *ssa.Function)
+	addFn = func(f *ssa.Function) {
+		if f == nil || v.allFuncs[f] {
+			return
+		}
+		v.allFuncs[f] = true
+		for _, a := range f.AnonFuncs {
+			addFn(a)
+		}
+	}
+	for _, sp := range prog.AllPackages() {
+		if !strings.HasPrefix(sp.Pkg.Path(), strings.TrimSuffix(murexRoot, "/")) {
+			continue
+		}
+		for _, m := range sp.Members {
+			switch x := m.(type) {
+			case *ssa.Function:
+				addFn(x)
+			case *ssa.Type:
+				for _, t := range []types.Type{x.Type(), types.NewPointer(x.Type())} {
+					ms := prog.MethodSets.MethodSet(t)
+					for i := 0; i < ms.Len(); i++ {
+						if fn := prog.MethodValue(ms.At(i)); fn != nil && fn.Synthetic == "" {
+							addFn(fn)
+						}
+					}
+				}
+			}
+		}
+	}
+	for f := range v.allFuncs {
+		for _, a := range f.AnonFuncs {
+			addFn(a)
+		}
+	}
 	if os.Getenv("GOVERIF_TIMING") != "" {
 		fmt.Fprintln(os.Stderr, "AllFunctions", time.Since(ta), len(v.allFuncs))
 	}
@@ -422,7 +459,7 @@ func (v *Verifier) findFunc(pkgRel, key string) []*ssa.Function {
 func (v *Verifier) verifyFunc(fn *ssa.Function, fc *FuncContract, em *Emitter, guardOnly bool) (fx *FuncExec, err error) {
 	fx = &FuncExec{V: v, fn: fn, fc: fc, em: em, vals: map[ssa.Value]Val{}, counts: map[string]int{},
 		heapInfos: map[string]*heapInfo{}, freshRefs: map[string]bool{}, callStats: map[string]int{},
-		usedContracts: map[string]bool{}, assumptions: map[string]bool{}, usedCallSites: map[*CallSiteSpec]bool{}, guardOnly: guardOnly}
+		usedContracts: map[string]bool{}, assumptions: map[string]bool{}, usedCallSites: map[*CallSiteSpec]bool{}, guardOnly: guardOnly, heldOnEntry: map[string]bool{}}
 	if fc != nil && fc.Scope == "functional" {
 		fx.functional = true
 	}
